@@ -13,7 +13,7 @@ from symx.scalar import SymReal
 from .common import facts, far, simp, tensor_of, term_of
 
 PID = "C09"
-LEVEL = "other"
+LEVEL = "model_checking"
 CLAIM = (
     "Bounded symbolic verification of tf-pwa's hand-written error propagation: every arithmetic operator of err_num.NumberError "
     "(either operand uncertain), log/exp/apply and cal_err run on symbolic values and errors and z3 decides that the returned error "
